@@ -23,7 +23,9 @@ RULE = ("scenes from the seed: 4..6 (thorough 4..8) cells per axis (>= 2*thickne
         "for 2 steps with active PML from random states s1, s2 and a s1 + b s2 (sources at the matching factors) "
         "superposes; (2) the probed source terms are linear in the factors; (3) one forward() step "
         "(simulate_boundaries=False) from a s1 + b s2 with sources vs the Lean model; (4) compute_energy / "
-        "compute_poynting_flux vs model; (5) step_cpml cells vs model. Removal scenes (always two in quick: a TILTED magnetic "
+        "compute_poynting_flux vs model; (5) step_cpml cells vs model. One amplitude scene per run (thorough: 5) has a plane "
+        "source plus a small Lorentz / Drude block elsewhere in the volume (dispersive H-side temporal filter of the TFSF "
+        "source; oracle-only, no model comparison). Removal scenes (always two in quick: a TILTED magnetic "
         "and a TILTED electric PointDipoleSource, azimuth and elevation != 0, plus a neighbouring second source whose field "
         "reaches the dipole cell): three SEPARATE placements (source 0 only, source 1 only, both) run through run_fdtd, fields "
         "and Field/Phasor records of the joint run = sum of the partial runs; and forward() from a non-zero state with the "
@@ -154,6 +156,11 @@ def make_objects(c, vol, only=None):
             else:
                 cons.append(o.place_at_center(vol))
         objs.append(o)
+    dsp = c.get("dispersive")
+    if dsp:
+        objs_d, cons_d = dispersive_block(f, vol, dsp)
+        objs += objs_d
+        cons += cons_d
     for i, d in enumerate(c["detectors"]):
         kw = dict(name=f"det{i}_{d['kind']}", exact_interpolation=d["exact"], switch=_switch(f, d["switch"]), plot=False)
         comp = {} if d.get("components") is None else {"components": tuple(d["components"])}
@@ -189,6 +196,28 @@ def make_objects(c, vol, only=None):
             cons += list(o.same_position_and_size(vol))
         objs.append(o)
     return objs, cons
+
+
+def dispersive_material(f, dsp):
+    """Material with a Lorentz / Drude pole (isotropic, per-axis or oriented) — public API only"""
+    kind = dsp.get("kind", "lorentz")
+    orient = dsp.get("orientation")
+    okw = {} if orient is None else {"orientation": tuple(float(x) for x in orient)}
+    if kind == "drude":
+        pole = f.DrudePole(plasma_frequency=float(dsp.get("wp", 4.0e15)), damping=float(dsp.get("gamma", 1.0e14)), **okw)
+    else:
+        pole = f.LorentzPole(resonance_frequency=float(dsp.get("w0", 6.0e15)), damping=float(dsp.get("gamma", 1.0e14)),
+                             delta_epsilon=float(dsp.get("de", 1.5)), **okw)
+    mkw = {}
+    if dsp.get("sigma"):
+        mkw["electric_conductivity"] = float(dsp["sigma"])
+    return f.Material(permittivity=float(dsp.get("eps_inf", 2.0)), dispersion=f.DispersionModel(poles=(pole,)), **mkw)
+
+
+def dispersive_block(f, vol, dsp):
+    o = f.UniformMaterialObject(partial_grid_shape=tuple(int(x) for x in dsp["size"]), material=dispersive_material(f, dsp), name="dispblock")
+    con = o.set_grid_coordinates(axes=(0, 1, 2), sides=("-", "-", "-"), coordinates=tuple(int(x) for x in dsp["pos"]))
+    return [o], [con]
 
 
 def _dt(c):
@@ -524,13 +553,15 @@ def one_case(ctx, c, sample=False):
     info = {}
     d0 = run_oracle(c, sc, info)
     d1, data = forward_superposition(c, sc)
-    d2 = model_part(ctx, c, sc, data)
+    # the shared Yee model has no ADE polarisation: scenes with a dispersive block are oracle-only
+    d2 = None if c.get("dispersive") else model_part(ctx, c, sc, data)
     ncp = cpml_part(ctx, c, sc, ctx.rng)
     kinds = sorted(set(c["faces"].values()))
     nt = (tuple(c["shape"]), c["seed"]) if info.get("on1") and info.get("on2") else None
     ctx.case(sample={k: c[k] for k in ("shape", "faces", "sources", "steps", "amps", "gradient", "seed")} if sample else None,
              nontrivial=nt, n_sources=len(c["sources"]), grid="nonuniform" if c["widths"] else "uniform", gradient=str(c["gradient"]),
              sig_e=c["sig_e"], eps_tier=c["eps_tier"], both_sources_on=bool(nt), cpml_cells=ncp > 0,
+             dispersive=(c["dispersive"]["kind"] if c.get("dispersive") else "no"),
              **{"src_" + s["kind"]: True for s in c["sources"]}, **{"sw_" + s["switch"]: True for s in c["sources"]},
              **{"face_" + k: True for k in kinds},
              **{"det_%s_%s%s" % (d["kind"], "reduced" if d["reduce"] else "full", "_exact" if d["exact"] else ""): True for d in c["detectors"]})
@@ -556,6 +587,19 @@ FORCED = [
 ]
 
 
+def dispersive_forced(seed, k=0):
+    """amplitude-scaling scene with a plane source and a small Lorentz / Drude block elsewhere in the volume (the
+    dispersive H-side temporal filter of every TFSF source exists as soon as any material is dispersive)"""
+    kind = "lorentz" if (seed + k) % 2 == 0 else "drude"
+    src_kind = "uniform" if (seed + k) % 3 != 1 else "gauss"
+    return dict(shape=[5, 5, 8], pml_thickness=2, widths=None, steps=9, gradient=None, eps_tier=1, sig_e=False,
+                faces={"min_x": "periodic", "max_x": "periodic", "min_y": "periodic", "max_y": "periodic", "min_z": "pml", "max_z": "pml"},
+                sources=[{"kind": src_kind, "axis": 2, "direction": "+" if k % 2 == 0 else "-", "profile": "cw" if (seed + k) % 2 else "pulse",
+                          "switch": "default", "pol": seed % 2, "pos": [2, 2, 3]}] +
+                        ([{"kind": "dipole_e", "axis": 0, "direction": "+", "profile": "cw", "switch": "default", "pol": 1, "pos": [1, 3, 4]}] if k % 2 else []),
+                dispersive={"kind": kind, "pos": [3, 1, 5], "size": [2, 2, 1]})
+
+
 def _fix_positions(c):
     th = c["pml_thickness"]
     for s in c["sources"]:
@@ -570,13 +614,17 @@ def _fix_positions(c):
 
 
 def run(ctx):
-    n = ctx.scale(2, 20)
-    cases = [_fix_positions(gen_case(ctx.rng, ctx.thorough, f)) for f in (FORCED if ctx.thorough else FORCED[:2])]
-    while len(cases) < n:
-        cases.append(gen_case(ctx.rng, ctx.thorough))
-    if not ctx.thorough:
-        # quick: a generated scene (seed 0: the third forced one) replaces the second forced one for other seeds
-        cases[1] = gen_case(ctx.rng, False) if ctx.seed % 2 == 1 else _fix_positions(gen_case(ctx.rng, False, FORCED[1 + (ctx.seed // 2) % 2]))
+    if ctx.thorough:
+        cases = [_fix_positions(gen_case(ctx.rng, True, f)) for f in FORCED]
+        while len(cases) < 20:
+            cases.append(gen_case(ctx.rng, True))
+        for k in range(5):
+            cases.append(_fix_positions(gen_case(ctx.rng, True, dispersive_forced(ctx.seed, k))))
+    else:
+        # quick: the dispersive-block scene (plane source + dipole, k = 1) and one rotating scene: a forced one for even
+        # seeds, a generated one for odd seeds
+        cases = [_fix_positions(gen_case(ctx.rng, False, dispersive_forced(ctx.seed, 1))),
+                 gen_case(ctx.rng, False) if ctx.seed % 2 == 1 else _fix_positions(gen_case(ctx.rng, False, FORCED[(ctx.seed // 2) % 3]))]
     for i, c in enumerate(cases):
         one_case(ctx, c, sample=i < 2)
     # sources really removed from the object list: tilted magnetic and tilted electric dipole + a neighbour source
